@@ -20,6 +20,7 @@ META = {
                     "weights in carryMassCalc act at the top-plate origin and at shaft_grav_center from the top joint along each leg"],
 }
 REQUIRED_CLASSES = ["cond<1e2", "cond_1e2..1e3", "cond_1e3..1e4"]
+REQUIRED_REACH = ['kinematics/sp_model.py:SP.inverseJacobian', 'kinematics/robot_model.py:Robot.staticForces', 'kinematics/robot_model.py:Robot.staticForcesInv', 'kinematics/sp_model.py:SP.carryMassCalc', 'kinematics/sp_model.py:SP.sumActuatorWrenches']
 REQUIRED_CLAUSES = ["jacobian.derivative", "jacobian.explicit_elsewhere", "statics.equilibrium", "statics.inverse", "statics.sum_actuator", "statics.body", "statics.body_inverse",
                     "carry_mass"]
 
